@@ -15,7 +15,7 @@ import z3
 from checks import templates, xmlvar
 from spv.harness import Harness, result
 
-TEMPLATES = ["T1", "T2", "T3", "T4", "T5", "T6", "T7", "JPSS", "JPSS_CONTRIVED"]
+TEMPLATES = ["T1", "T2", "T3", "T4", "O|T4", "T5", "T6", "T7", "O|T7", "JPSS", "JPSS_CONTRIVED"]
 
 META = {
     "level": "model_checking",
@@ -25,7 +25,7 @@ META = {
              "from the listed kinds (all targets enumerated by the executor), loading raises - except an unchanged duplicate container, which the "
              "property allows to load to the same graph.",
     "trusted": "lxml; the corruptions are made with plain lxml on the XML text (checks/xmlvar.py)",
-    "bounds": {"quick": {"templates": ["T1", "T3", "T4", "T6", "T7", "JPSS"]}, "thorough": {"templates": TEMPLATES}},
+    "bounds": {"quick": {"templates": ["T1", "T3", "T4", "O|T4", "T6", "T7", "JPSS"]}, "thorough": {"templates": TEMPLATES}},
     "stubs": ["none"],
     "outside_claim": ["references made from criteria and length specifications (resolved at decode time; excluded by the property)", "multi-point corruptions",
                       "documents outside the listed set"],
